@@ -20,24 +20,29 @@ def hareAdd (q : Rat) (prev : Seats) (p : Cand × Rat) : Option (Cand × Nat) :=
   else none
 
 /-- one step of the pass on a successful accumulator -/
-theorem hareStep_ok (q : Rat) (n : Nat) (prev : Seats) (sel : Seats) (p : Cand × Rat) :
-    hareStep q n prev (.ok sel) p =
+theorem hareStep_ok (q : Rat) (prev : Seats) (sel : Seats) (p : Cand × Rat) :
+    hareStep q prev (.ok sel) p =
       if q < p.2 ∨ p.2 = q then
         if q = 0 then .error zeroDiv else
         if 0 < Py.pyInt (p.2 / q) - ((natLookup prev p.1 0 : Nat) : Int) then
-          if (n : Int) < Py.pyInt (p.2 / q) then .error unmodelled
-          else .ok (sel ++ [(p.1, (Py.pyInt (p.2 / q) - ((natLookup prev p.1 0 : Nat) : Int)).toNat)])
+          .ok (sel ++ [(p.1, (Py.pyInt (p.2 / q) - ((natLookup prev p.1 0 : Nat) : Int)).toNat)])
         else .ok sel
       else .ok sel := rfl
 
-theorem hareStep_error (q : Rat) (n : Nat) (prev : Seats) (e : Err) (l : Votes) :
-    l.foldl (hareStep q n prev) (.error e) = .error e := by
+theorem hareStep_error (q : Rat) (prev : Seats) (e : Err) (l : Votes) :
+    l.foldl (hareStep q prev) (.error e) = .error e := by
   induction l with
   | nil => rfl
   | cons x xs ih => rw [List.foldl_cons]; exact ih
 
-theorem hareQuota_foldl (q : Rat) (n : Nat) (prev : Seats) (l : Votes) (acc qe : Seats)
-    (h : l.foldl (hareStep q n prev) (.ok acc) = .ok qe) :
+theorem hareAdd_of (q : Rat) (prev : Seats) (x : Cand × Rat) (hful : q < x.2 ∨ x.2 = q) :
+    hareAdd q prev x =
+      if 0 < Py.pyInt (x.2 / q) - ((natLookup prev x.1 0 : Nat) : Int)
+      then some (x.1, (Py.pyInt (x.2 / q) - ((natLookup prev x.1 0 : Nat) : Int)).toNat) else none := by
+  unfold hareAdd; rw [if_pos hful]
+
+theorem hareQuota_foldl (q : Rat) (prev : Seats) (l : Votes) (acc qe : Seats)
+    (h : l.foldl (hareStep q prev) (.ok acc) = .ok qe) :
     qe = acc ++ l.filterMap (hareAdd q prev) ∧ (∀ p ∈ l, (q < p.2 ∨ p.2 = q) → q ≠ 0) := by
   induction l generalizing acc with
   | nil =>
@@ -53,27 +58,17 @@ theorem hareQuota_foldl (q : Rat) (n : Nat) (prev : Seats) (l : Votes) (acc qe :
       · rw [if_neg hq] at h
         by_cases hadd : 0 < Py.pyInt (x.2 / q) - ((natLookup prev x.1 0 : Nat) : Int)
         · rw [if_pos hadd] at h
-          by_cases hov : (n : Int) < Py.pyInt (x.2 / q)
-          · rw [if_pos hov, hareStep_error] at h
-            simp at h
-          · rw [if_neg hov] at h
-            obtain ⟨h1, h2⟩ := ih _ h
-            refine ⟨?_, ?_⟩
-            · rw [h1, List.filterMap_cons]
-              have : hareAdd q prev x = some (x.1, (Py.pyInt (x.2 / q) - ((natLookup prev x.1 0 : Nat) : Int)).toNat) := by
-                unfold hareAdd; rw [if_pos hful]; simp only; rw [if_pos hadd]
-              rw [this]; simp
-            · intro p hp hf
-              rcases List.mem_cons.mp hp with rfl | hp'
-              · exact hq
-              · exact h2 p hp' hf
+          obtain ⟨h1, h2⟩ := ih _ h
+          refine ⟨?_, ?_⟩
+          · rw [h1, List.filterMap_cons, hareAdd_of q prev x hful, if_pos hadd]; simp
+          · intro p hp hf
+            rcases List.mem_cons.mp hp with rfl | hp'
+            · exact hq
+            · exact h2 p hp' hf
         · rw [if_neg hadd] at h
           obtain ⟨h1, h2⟩ := ih _ h
           refine ⟨?_, ?_⟩
-          · rw [h1, List.filterMap_cons]
-            have : hareAdd q prev x = none := by
-              unfold hareAdd; rw [if_pos hful]; simp only; rw [if_neg hadd]
-            rw [this]
+          · rw [h1, List.filterMap_cons, hareAdd_of q prev x hful, if_neg hadd]
           · intro p hp hf
             rcases List.mem_cons.mp hp with rfl | hp'
             · exact hq
@@ -89,28 +84,19 @@ theorem hareQuota_foldl (q : Rat) (n : Nat) (prev : Seats) (l : Votes) (acc qe :
         · exact absurd hf hful
         · exact h2 p hp' hf
 
-/-- the whole-quota pass succeeds when the quota is non-zero and no party overshoots the house -/
-theorem hareQuota_foldl_ok (q : Rat) (hq : q ≠ 0) (n : Nat) (prev : Seats) (l : Votes) (acc : Seats)
-    (hw : ∀ p ∈ l, ¬ (n : Int) < Py.pyInt (p.2 / q)) :
-    l.foldl (hareStep q n prev) (.ok acc) = .ok (acc ++ l.filterMap (hareAdd q prev)) := by
+/-- the whole-quota pass succeeds when the quota is non-zero -/
+theorem hareQuota_foldl_ok (q : Rat) (hq : q ≠ 0) (prev : Seats) (l : Votes) (acc : Seats) :
+    l.foldl (hareStep q prev) (.ok acc) = .ok (acc ++ l.filterMap (hareAdd q prev)) := by
   induction l generalizing acc with
   | nil => simp
   | cons x xs ih =>
     rw [List.foldl_cons, hareStep_ok]
-    have hwx := hw x List.mem_cons_self
-    have hws : ∀ p ∈ xs, ¬ (n : Int) < Py.pyInt (p.2 / q) := fun p hp => hw p (List.mem_cons_of_mem _ hp)
     by_cases hful : q < x.2 ∨ x.2 = q
     · rw [if_pos hful, if_neg hq]
       by_cases hadd : 0 < Py.pyInt (x.2 / q) - ((natLookup prev x.1 0 : Nat) : Int)
-      · rw [if_pos hadd, if_neg hwx, ih _ hws, List.filterMap_cons]
-        have : hareAdd q prev x = some (x.1, (Py.pyInt (x.2 / q) - ((natLookup prev x.1 0 : Nat) : Int)).toNat) := by
-          unfold hareAdd; rw [if_pos hful]; simp only; rw [if_pos hadd]
-        rw [this]; simp
-      · rw [if_neg hadd, ih _ hws, List.filterMap_cons]
-        have : hareAdd q prev x = none := by
-          unfold hareAdd; rw [if_pos hful]; simp only; rw [if_neg hadd]
-        rw [this]
-    · rw [if_neg hful, ih _ hws, List.filterMap_cons]
+      · rw [if_pos hadd, ih, List.filterMap_cons, hareAdd_of q prev x hful, if_pos hadd]; simp
+      · rw [if_neg hadd, ih, List.filterMap_cons, hareAdd_of q prev x hful, if_neg hadd]
+    · rw [if_neg hful, ih, List.filterMap_cons]
       have : hareAdd q prev x = none := by unfold hareAdd; rw [if_neg hful]
       rw [this]
 
@@ -276,7 +262,7 @@ theorem lrHare_fills (votes : Votes) (hne : votes ≠ []) (hv : ∀ p ∈ votes,
     by_cases hn0 : n = 0
     · rw [if_pos hn0] at hqe; simp at hqe
     · rw [if_neg hn0] at hqe
-      obtain ⟨hqeq, hqne⟩ := hareQuota_foldl (sumVals votes / (n : Rat)) n prev votes [] qe hqe
+      obtain ⟨hqeq, hqne⟩ := hareQuota_foldl (sumVals votes / (n : Rat)) prev votes [] qe hqe
       rw [List.nil_append] at hqeq
       by_cases hover : n < sumSeats qe + sumSeats prev
       · rw [if_pos hover] at h; simp at h
@@ -433,7 +419,7 @@ theorem lrHare_nodup (votes : Votes) (hn : (keys votes).Nodup) (n : Nat) (prev c
         unfold hareQuotaSeats at hqe
         split at hqe
         · simp at hqe
-        · obtain ⟨hqeq, _⟩ := hareQuota_foldl _ n prev votes [] qe hqe
+        · obtain ⟨hqeq, _⟩ := hareQuota_foldl _ prev votes [] qe hqe
           rw [List.nil_append] at hqeq
           have hsub := hareAdd_keys_sublist (sumVals votes / (n : Rat)) prev votes
           rw [← hqeq] at hsub
@@ -614,7 +600,7 @@ theorem lrHare_answers (votes : Votes) (hv : ∀ p ∈ votes, 0 ≤ p.2) (hn : (
   have hqe : hareQuotaSeats votes h [] = .ok (votes.filterMap (hareAdd q [])) := by
     unfold hareQuotaSeats
     rw [if_neg (by omega)]
-    have := hareQuota_foldl_ok q (ne_of_gt hq) h [] votes [] hw
+    have := hareQuota_foldl_ok q (ne_of_gt hq) [] votes []
     rw [List.nil_append] at this
     exact this
   -- the quota seats fit into the house
